@@ -22,7 +22,9 @@ static std::map<const Function*, std::string> fnames;
 static std::map<const GlobalVariable*, std::string> gnames;
 static std::map<Type*, std::string> aggnames;
 static std::vector<std::string> aggdefs;
-static std::set<std::string> stubs;
+static std::set<std::string> stubs, throwstubs;
+static bool matchpat(const std::set<std::string>& s, const std::string& n){ for(auto& p:s){ if(!p.empty()&&p.back()=='*'){ if(n.compare(0,p.size()-1,p,0,p.size()-1)==0) return true; } else if(n==p) return true; } return false; }
+static bool isStub(const std::string& n){ return matchpat(stubs,n)||matchpat(throwstubs,n); }
 static std::set<const GlobalVariable*> usedGlobals;
 static std::set<const Function*> usedFuncs; // referenced (called or address taken)
 static std::string err;
@@ -218,7 +220,7 @@ int main(int argc,char** argv){
   if(argc<3){ errs()<<"usage: ir2c in.ll out.c root1 [root2 ...] [--stub name ...]\n"; return 2; }
   LLVMContext C; SMDiagnostic D; auto M=parseIRFile(argv[1],D,C); if(!M){ D.print("ir2c",errs()); return 2; }
   DL=&M->getDataLayout();
-  std::vector<std::string> roots; for(int i=3;i<argc;++i){ std::string a=argv[i]; if(a=="--stub"&&i+1<argc){ stubs.insert(argv[++i]); } else roots.push_back(a); }
+  std::vector<std::string> roots; for(int i=3;i<argc;++i){ std::string a=argv[i]; if(a=="--stub"&&i+1<argc){ stubs.insert(argv[++i]); } else if(a=="--throw"&&i+1<argc){ throwstubs.insert(argv[++i]); } else roots.push_back(a); }
   for(auto& F:*M) fnames[&F]= F.getName().startswith("llvm.")? "" : ((F.isDeclaration()? std::string("X_"):std::string(""))+cid(F.getName()));
   // reachability
   std::vector<const Function*> work; std::set<const Function*> seen;
@@ -226,26 +228,29 @@ int main(int argc,char** argv){
   std::vector<const Function*> order;
   std::string body; raw_string_ostream bo(body);
   while(!work.empty()){ auto* f=work.back(); work.pop_back(); order.push_back(f);
-    if(f->isDeclaration()||stubs.count(f->getName().str())) continue;
+    if(f->isDeclaration()||isStub(f->getName().str())) continue;
     size_t before=usedFuncs.size(); (void)before;
     std::set<const Function*> prev=usedFuncs; emitFunction(bo,f);
     for(auto* g: usedFuncs) if(!seen.count(g)&&!g->isIntrinsic()){ seen.insert(g); work.push_back(g); } }
   // globals (iterate since initializers may reference more globals/functions)
   std::string ginit; raw_string_ostream go(ginit); std::set<const GlobalVariable*> done;
   bool changed=true; while(changed){ changed=false; auto cur=usedGlobals; for(auto* g:cur) if(!done.count(g)){ done.insert(g); changed=true; if(g->hasInitializer()) initConst(go,gnames[g],0,g->getInitializer()); }
-    for(auto* f: usedFuncs) if(!seen.count(f)&&!f->isIntrinsic()){ seen.insert(f); order.push_back(f); if(!f->isDeclaration()&&!stubs.count(f->getName().str())){ emitFunction(bo,f); changed=true; } } }
+    for(auto* f: usedFuncs) if(!seen.count(f)&&!f->isIntrinsic()){ seen.insert(f); order.push_back(f); if(!f->isDeclaration()&&!isStub(f->getName().str())){ emitFunction(bo,f); changed=true; } } }
   std::error_code ec; raw_fd_ostream out(argv[2],ec); 
   out<<"/* generated by ir2c from "<<argv[1]<<" */\n#include \"ir2c_rt.h\"\n";
   for(auto& d:aggdefs) out<<d<<"\n";
   for(auto* g:done){ uint64_t sz= g->getValueType()->isSized()? DL->getTypeAllocSize(g->getValueType()):8; out<<"uint8_t "<<gnames[g]<<"["<<(sz?sz:1)<<"] __attribute__((aligned(16)));\n"; }
   names.clear();
   for(auto* f:order){ unsigned n=0; names.clear(); for(auto& a:f->args()) names[&a]="a"+std::to_string(n++); out<<proto(f)<<";\n"; }
+  for(auto* f:order){ std::string nm=f->getName().str(); if(f->isIntrinsic()) continue; bool thr=matchpat(throwstubs,nm); bool st=matchpat(stubs,nm);
+    if(!(thr||(st&&!f->isDeclaration()))) continue; unsigned n=0; names.clear(); for(auto& a:f->args()) names[&a]="a"+std::to_string(n++);
+    out<<proto(f)<<" { "; if(thr) out<<"__ir2c_thrown = 1; "; if(!f->getReturnType()->isVoidTy()) out<<"return "<<zero(f->getReturnType())<<"; "; out<<"}\n"; }
   out<<"void __ir2c_init_globals(void){\n"<<go.str()<<"}\n\n"<<bo.str();
   out.flush(); out.close();
   { std::string hp=std::string(argv[2]); hp=hp.substr(0,hp.size()-2)+".h"; std::error_code ec2; raw_fd_ostream hd(hp,ec2);
     hd<<"/* prototypes of the lifted entry points (ABI-compatible with the real extern \"C\" functions) */\n#include <stdint.h>\n";
     for(auto& r:roots){ auto* f=M->getFunction(r); unsigned n=0; names.clear(); for(auto& a:f->args()) names[&a]="a"+std::to_string(n++); hd<<proto(f)<<";\n"; } }
-  errs()<<"ir2c: "<<order.size()<<" functions ("; unsigned defs=0; for(auto* f:order) if(!f->isDeclaration()&&!stubs.count(f->getName().str())) ++defs; errs()<<defs<<" translated), "<<done.size()<<" globals\n";
-  for(auto* f:order) if(f->isDeclaration()||stubs.count(f->getName().str())) errs()<<"  extern/stub: "<<f->getName()<<"\n";
+  errs()<<"ir2c: "<<order.size()<<" functions ("; unsigned defs=0; for(auto* f:order) if(!f->isDeclaration()&&!isStub(f->getName().str())) ++defs; errs()<<defs<<" translated), "<<done.size()<<" globals\n";
+  for(auto* f:order) if(f->isDeclaration()||isStub(f->getName().str())) errs()<<"  extern/stub: "<<f->getName()<<"\n";
   if(!err.empty()){ errs()<<"ir2c ERRORS:\n"<<err; return 1; }
   return 0; }
